@@ -376,6 +376,9 @@ async fn process_commit(
         );
         new_current_line_map.extend(current_lines);
         current_source.line_map = new_current_line_map;
+        // A parent that already holds lines and is reached by a missing edge has
+        // been counted as an unresolved root before.
+        let already_counted = !parent_source.line_map.is_empty();
         parent_source.line_map = if parent_source.line_map.is_empty() {
             new_parent_line_map
         } else {
@@ -393,7 +396,9 @@ async fn process_commit(
                     line_number: parent_line_number,
                 });
             }
-            state.num_unresolved_roots += 1;
+            if !already_counted {
+                state.num_unresolved_roots += 1;
+            }
         }
     }
 
